@@ -153,6 +153,8 @@ def methods(ctx, world):
     for cls, name, tgt, m, site, expr in t.setattrs:
         if not cls.endswith("ArrayBox"):
             continue
+        if name.startswith("__") and name.endswith("__"):
+            continue  # special methods: the operator table (A14) decides them
         n += 1
         inst = f"ArrayBox.{name}"
         if tgt is None:
